@@ -250,12 +250,43 @@ try:
                  "cross-namespace-redirect")
 finally:
     cx.db_conn.close()
+# a non-English configuration: the page is found under the local prefix, the canonical English prefix and the
+# aliases, in any letter case; and not under the prefix of another namespace
+for lang in (["fr", "de"] if tier == "quick" else ["fr", "de", "ru", "zh", "es", "pl"]):
+    with quiet_stdout():
+        cl = Wtp(db_path=Path(TMP) / f"l_{lang}.sqlite", quiet=True, lang_code=lang)
+    try:
+        for canon in ("Template", "Module"):
+            d_ = cl.NAMESPACE_DATA[canon]
+            nsid = d_["id"]
+            local = cl.LOCAL_NS_NAME_BY_ID[nsid]
+            cl.add_page(f"{local}:En-IPA x", nsid, "body " + canon, model="wikitext" if canon == "Template" else "Scribunto")
+            spellings = {local, canon} | set(d_["aliases"])
+            for pre in sorted(spellings):
+                for var in (pre, pre.lower(), pre.upper()):
+                    evaluations += 1
+                    pg = cl.get_page(f"{var}:En-IPA x", nsid)
+                    if pg is None or pg.body != "body " + canon or not cl.page_exists(f"{var}:En-IPA_x", nsid):
+                        fail("core:Wtp.get_page#finds-latest-under-every-spelling",
+                             f"lang_code={lang!r}: {var + ':En-IPA x'!r} ns={nsid} not found (stored {local + ':En-IPA x'!r})",
+                             {"lang_code": lang, "spelling": f"{var}:En-IPA x", "namespace_id": nsid}, "not-found")
+            if cl.get_page(f"{local}:en-IPA X", nsid) is not None:
+                fail("core:Wtp.get_page#titles-otherwise-case-sensitive", f"lang_code={lang!r}: case variant found",
+                     {"lang_code": lang}, "case-insensitive-hit")
+    finally:
+        cl.db_conn.close()
 # F: namespace_prefixes returns prefixes ending with ':' for every namespace of every shipped data file
 data = Path(wikitextprocessor.__file__).parent / "data"
 nfiles = nbad = 0
 for f in sorted(data.glob("*/namespaces.json")):
     nfiles += 1
     d = json.loads(f.read_text(encoding="utf-8"))
+    ids = [ns["id"] for ns in d.values()]
+    names_ = [ns["name"] for ns in d.values() if ns["name"]]
+    if len(ids) != len(set(ids)) or len(names_) != len(set(names_)):
+        dup = sorted({i for i in ids if ids.count(i) > 1}) + sorted({n for n in names_ if names_.count(n) > 1})
+        fail("data:namespaces.json#namespace-ids-and-names-are-unique", f"{f.parent.name}/namespaces.json: duplicates {dup}",
+             {"file": f"{f.parent.name}/namespaces.json", "duplicates": dup}, "duplicate-namespace")
     for key, ns in d.items():
         prefixes = [ns["name"].lower() + ":"] + [a.lower() + ":" for a in ns["aliases"]]
         if any(not p.endswith(":") for p in prefixes):
